@@ -77,8 +77,14 @@ macro_rules! uniform_harnesses {
             pub fn invalid() {
                 let range: usize = any();
                 assume(range < 2 || (range as u64) > TOTAL);
-                let _m = UniformModel::<Pr, P>::new(range);
-                assert!(false, "C19: UniformModel::new accepted an invalid range");
+                let m = UniformModel::<Pr, P>::new(range);
+                if group(2) == 0 { assert!(false, "C19: UniformModel::new accepted an invalid range"); return; }
+                // C20: whatever new() returns must not carry a zero inside the non-zero probability type
+                let s: usize = any();
+                if let Some((_, p)) = m.left_cumulative_and_probability(s) { assert!(p.get() != 0, "C20: a zero value inside a non-zero probability type (uniform model built from an invalid range)"); }
+                let q: Pr = any(); assume((q as u64) < TOTAL);
+                let (_, _, p) = m.quantile_function(q);
+                assert!(p.get() != 0, "C20: a zero value inside a non-zero probability type (uniform model built from an invalid range)");
             }
         }
     };
